@@ -13,7 +13,10 @@ ToSet(s) == {s[i] : i \in 1..Len(s)}
 QCSchemaDocs == {"json_qcschema", "json_qcschema_input", "json_qcschema_output"}
 RoundTripOK(e) ==
   /\ e.dump = "ok" /\ e.load = "ok"
-  /\ \A k \in Keys(e.fmt) : e.rel[k] = Expect(e.fmt, k, ToSet(e.present))
+  \* (a value that comes back unchanged where the format is known to normalise it -- bond types in PDB, atom order in POSCAR --
+  \*  is better than the table asks for, never a violation)
+  /\ \A k \in Keys(e.fmt) : \/ e.rel[k] = Expect(e.fmt, k, ToSet(e.present))
+                            \/ (k \in ToSet(e.present) /\ e.rel[k] = "same")
   /\ (e.perm # <<>> => e.perm = PoscarOrder(e.atnums))
 \* after one cycle nothing changes any more (the QCSchema provenance trail grows by design)
 CyclesOK(e) ==
